@@ -290,6 +290,9 @@ def run(ctx, rep):
     rule_pipeline(ctx, rep)
     rule_stable(ctx, rep)
     rule_toporder(ctx, rep)
+    # the files named first are still there when the last one has been added (the set does not depend on the order of the arguments)
+    from rules.c03 import rule_grow
+    rule_grow(ctx, rep, rid="R-C06-grow")
     # which of two same-named declarations survives must not depend on the order of the files: a duplicate is always an error
     from rules.c03 import rule_dupreport
     rule_dupreport(ctx, rep, rid="R-C06-dupreport")
